@@ -7,7 +7,7 @@ import z3
 
 from .core import *  # noqa: F401,F403
 from .vals import *  # noqa: F401,F403
-from .vals import SEQ, ROWS, IntRowsP, MapSeqP, SetP, VMapSlot
+from .vals import SEQ, ROWS, INTARR, StrSeqP, IntRowsP, MapSeqP, SetP, VMapSlot
 from .ev_expr import UNBOUND, BoolishV, StrListP
 from .schema import SCHEMA
 
@@ -37,6 +37,10 @@ def attr_path(node) -> str | None:
     if isinstance(node, ast.Subscript):
         return attr_path(node.value)
     return None
+
+
+SPEC_NAMES = {"old", "forall", "exists", "implies", "iff", "ite", "len", "min", "max", "abs", "ord", "chr", "result", "True", "False", "None", "ntokens", "new_tokens", "strfun", "aslist",
+              "cache_get", "forall_atoms", "altlen", "altelem", "ischar", "int", "str", "bool", "value", "index"}
 
 
 def alias_sources(loop, root):
@@ -132,6 +136,13 @@ class StmtMixin:
         if st.value is None:
             return
         ann = ast.unparse(st.annotation)
+        if isinstance(st.value, ast.List) and not st.value.elts and ann == "list[str]" and ((fr.contract.ghost or {}).get("local_types") or {}).get(ast.unparse(st.target)) == "strseq":
+            n = self.new_ref(ast.unparse(st.target).replace(".", "_"))
+            p = self.fresh_strseq(n)
+            p.len = z3.IntVal(0)
+            self.payload[n] = p
+            self.assign(st.target, VList(n), fr, st)
+            return
         if isinstance(st.value, ast.List) and not st.value.elts and ann in ("list[int]", "list[str]"):
             # an annotated empty list of ints / names: a symbolic (array, length 0) list from the start
             n = self.new_ref(ast.unparse(st.target).replace(".", "_"))
@@ -303,7 +314,7 @@ class StmtMixin:
             j = z3.simplify(self.norm_index(i, z3.IntVal(p.rowlen)))
             p.vals = z3.Store(p.vals, base.key, z3.Store(z3.Select(p.vals, base.key), j, self.as_int(v)))
             return
-        if isinstance(base, VObj) and base.cls == "<opaque>":
+        if isinstance(base, VObj) and base.cls in ("<opaque>", "<optlist>", "<map>"):
             # a store into an opaque mapping (env and what hangs off it): outside the modelled heap; the contract of the
             # function says nothing about it and nothing modelled can alias it
             self.assumption_log.add("stores into opaque mappings (env) do not alias modelled state")
@@ -675,6 +686,8 @@ class StmtMixin:
             ln = z3.Int(f"len({n})")
             self.payload[ref] = RecListP(ln, p.cls, {f: z3.Array(f"{n}.{f}", z3.IntSort(), a.sort().range()) for f, a in p.fields.items()})
             self.assume_axiom(ln >= 0)
+        elif isinstance(p, StrSeqP):
+            self.payload[ref] = self.fresh_strseq(self.new_ref(name))
         elif isinstance(p, StrListP):
             self.payload[ref] = StrListP(p.len, p.init)
         elif isinstance(p, PyListP) and all(isinstance(x, (VAtom, VInt)) or (isinstance(x, VStr) and x.kind == "lit") for x in p.items):
@@ -757,7 +770,7 @@ class StmtMixin:
 
     def run_loop(self, st, fr, k, lc, cond, pre_body, step, ghost=None, extra_havoc=()) -> bool:
         """Cut the loop at its invariant. Returns True when the loop was left via break."""
-        inv = lc.get("inv", [])
+        inv = self.fitting_invariants(lc.get("inv", []), fr, k)
         dec = lc.get("dec")
         types = lc.get("types", {})
         site = f"loop#{k}"
@@ -828,6 +841,33 @@ class StmtMixin:
                 self.oblige("DEC", site, z3.And(d1 < dec0, dec0 > 0), st)
             raise PathEnd()
         return False
+
+    def fitting_invariants(self, inv, fr, k):
+        """invariant conjuncts that mention a name the function no longer has (a local removed by a change to the code) cannot
+        be stated; they are dropped - what depended on them then fails on its own - instead of putting the whole function
+        out of reach"""
+        import ast as _ast
+
+        known = getattr(fr, "_known_names", None)
+        if known is None:
+            known = {n.id for n in _ast.walk(fr.fn) if isinstance(n, _ast.Name)} | {a.arg for a in fr.fn.args.args}
+            fr._known_names = known
+        defs = set(((fr.contract.ghost or {}).get("defs") or {}))
+        lets = set()
+        for lc2 in (fr.contract.loops or {}).values():
+            lets |= set((lc2.get("let") or {}))
+        out = []
+        for label, expr in inv:
+            try:
+                names = {n.id for n in _ast.walk(_ast.parse(expr, mode="eval")) if isinstance(n, _ast.Name)}
+            except SyntaxError:
+                names = set()
+            missing = {n for n in names if n not in known and n not in defs and n not in lets and not n.startswith("_it") and n not in SPEC_NAMES and n not in self.specfuns}
+            if missing:
+                self.assumption_log.add(f"{fr.qualname}: invariant conjunct loop#{k}/{label} dropped - it mentions {sorted(missing)}, which the code no longer has")
+                continue
+            out.append((label, expr))
+        return out
 
     def modular_reset(self, st, fr, lc):
         """forget the path: pc := preconditions; every local assigned so far and every heap location written so far
